@@ -231,7 +231,17 @@ class Pipeline(object):
 
         self._worker_tasks.clear()
 
-        yield from self._producer_task
+        if not self._producer_task.done():
+            # All workers have exited. The producer may be waiting for a
+            # worker (in put_item() or wait_for_worker()) that will never
+            # come, so it is cancelled instead of awaited forever.
+            self._producer_task.cancel()
+
+        try:
+            yield from self._producer_task
+        except asyncio.CancelledError:
+            if not self._producer_task.cancelled():
+                raise
 
         self._state = PipelineState.stopped
 
